@@ -13,11 +13,14 @@
 namespace hz {
 
 // every execution starts from the same simulated-heap state, so that no run depends on what its worker did before
+static bool g_process_poisoned = false;
 static Result execute_clean(const Plan &p) {
     sim::HeapConfig hc; hc.fill = sim::HF_AA; hc.recycle = 0; hc.shift = 0; hc.seed = p.run;
     sim::heap_configure(hc);
     sim::probes_reset_run();
-    return execute(p);
+    Result r = execute(p);
+    if (r.poisoned) g_process_poisoned = true;
+    return r;
 }
 
 static long long g_current_run = -1;
@@ -46,6 +49,7 @@ struct Shrinker {
     Result last;
     Shrinker(const std::string &k, int b, double secs) : klass(k), budget(b), deadline(wall_now() + secs) {}
     bool still(const Plan &p) {
+        if (g_process_poisoned) return false;      // an abandoned world: stop minimising, report what we have, restart the worker
         if (execs >= budget || wall_now() > deadline) return false;
         ++execs;
         Result r = execute_clean(p);
@@ -254,11 +258,21 @@ static int worker_main(int argc, char **argv) {
                     printf("K %s\n", kj.str().c_str());
                     continue;
                 }
+                if (g_process_poisoned) {
+                    // the world was abandoned: no in-process gate / minimisation; the runner replays the file in a fresh process
+                    char path[512]; snprintf(path, sizeof path, "%s/%s-%llu-%lld-%zu.json", replay_dir.c_str(), CHECK_ID, (unsigned long long)seed, idx, vi);
+                    js::save(path, replay_json(plan, v, r, plan, 0));
+                    js::Value vj = v.to_json(); vj.set("run", idx); vj.set("replay", path); vj.set("class", v.klass());
+                    printf("V %s\n", vj.str().c_str()); fflush(stdout);
+                    ++nviol; if (rc == 0) rc = 1;
+                    continue;
+                }
                 // gate: same plan, same process, must reproduce with the same hash
                 g_phase = "gate";
                 Result r2 = execute_clean(plan);
                 const Violation *v2 = find_class(r2, v.klass());
-                if (!v2 || r2.hash != r.hash) {
+                if (g_process_poisoned && v2) { /* reproduced, but this execution abandoned a world: report unshrunk below */ }
+                else if (!v2 || r2.hash != r.hash) {
                     js::Value e = js::Value::object(); e.set("error", "nondeterministic"); e.set("run", idx); e.set("class", v.klass());
                     char hb[64]; snprintf(hb, sizeof hb, "%016llx vs %016llx", (unsigned long long)r.hash, (unsigned long long)r2.hash); e.set("hashes", hb);
                     e.set("plan", plan.to_json());
@@ -267,13 +281,16 @@ static int worker_main(int argc, char **argv) {
                 }
                 g_phase = "shrink";
                 Plan mp = plan; Result mr = r; int sexecs = 0;
-                if (!noshrink) {
+                if (!noshrink && !g_process_poisoned) {
                     Shrinker sh(v.klass(), shrink_budget, shrink_secs);
                     mp = sh.run(plan, r);
                     sexecs = sh.execs;
-                    g_phase = "shrink-final";
-                    mr = execute_clean(mp);
-                    if (!find_class(mr, v.klass())) { mp = plan; mr = r; }   // be safe
+                    if (g_process_poisoned) { mp = plan; mr = r; }           // a candidate abandoned its world: keep the original
+                    else {
+                        g_phase = "shrink-final";
+                        mr = execute_clean(mp);
+                        if (!find_class(mr, v.klass()) || g_process_poisoned) { mp = plan; mr = r; }   // be safe
+                    }
                 }
                 const Violation *mv = find_class(mr, v.klass());
                 // the minimised violation may match a known finding (signature evaluated on the minimised world)
@@ -287,6 +304,7 @@ static int worker_main(int argc, char **argv) {
                 ++nviol; if (rc == 0) rc = 1;
             }
         }
+        if (g_process_poisoned) { emit_summary(); printf("Q %lld\n", idx); fflush(stdout); _exit(3); }     // restart me after this run
         double tn = wall_now();
         if (tn - last_summary > 2.0) { last_summary = tn; emit_summary(); }
     }
